@@ -455,6 +455,7 @@ func c06ManagerHistoryProp(rec *vk.Rec, ext bool) func(*rapid.T) {
 		releasedWhileGone, allocAfterGoneRelease := false, false
 		reusableRuns, reusableOK, unalignedRuns, targetRuns, targetOK := 0, 0, 0, 0, 0
 		preemptRuns, preemptOK, preemptOffZero, preemptBoundary := 0, 0, 0, 0
+		reservedChanged, reservedRefreshes, heldBecameReserved := false, 0, 0
 
 		check := func(where string) bool {
 			na := rm.GetNodeAllocation(nodeName)
@@ -469,7 +470,7 @@ func c06ManagerHistoryProp(rec *vk.Rec, ext bool) func(*rapid.T) {
 				if n > maxRef {
 					return c.Violation(t, "history:cpu-over-shared", "%s: cpu %d held by %d live pods > sharing limit %d; history=%v", where, id, n, maxRef, hist)
 				}
-				if reserved.Contains(id) {
+				if !reservedChanged && reserved.Contains(id) {
 					return c.Violation(t, "history:reserved-cpu-allocated", "%s: node-reserved cpu %d allocated; history=%v", where, id, hist)
 				}
 				if na.allocatedCPUs[id].RefCount != n {
@@ -606,6 +607,13 @@ func c06ManagerHistoryProp(rec *vk.Rec, ext bool) func(*rapid.T) {
 						dead = true
 						return
 					}
+					for _, id := range alloc.CPUSet.ToSliceNoSort() {
+						if reserved.Contains(id) {
+							c.Violation(t, "history:reserved-cpu-allocated", "node-reserved cpu %d handed out (%v, reserved %v); history=%v", id, alloc.CPUSet, reserved, hist)
+							dead = true
+							return
+						}
+					}
 					if opts.requiredCPUBindPolicy {
 						sawRequired = true
 						if !c06PolicyHolds(bind, alloc.CPUSet, topo) {
@@ -713,6 +721,14 @@ func c06ManagerHistoryProp(rec *vk.Rec, ext bool) func(*rapid.T) {
 				if !st.IsSuccess() {
 					hist = append(hist, fmt.Sprintf("reallocate %s cpuBind=%v n=%d hint=%v req=%v -> refused", uid, cpuBind, n, hint, c06RLOne(req)))
 					return
+				}
+				for _, id := range a.CPUSet.ToSliceNoSort() {
+					if reserved.Contains(id) {
+						hist = append(hist, fmt.Sprintf("reallocate %s -> %v", uid, c06AllocStr(a)))
+						c.Violation(t, "history:reserved-cpu-allocated", "node-reserved cpu %d handed out (%v, reserved %v); history=%v", id, a.CPUSet, reserved, hist)
+						dead = true
+						return
+					}
 				}
 				rm.Update(nodeName, a)
 				live[uid] = a
@@ -1078,6 +1094,44 @@ func c06ManagerHistoryProp(rec *vk.Rec, ext bool) func(*rapid.T) {
 			// on a NUMA node is its capacity minus what the live pods that are NOT victims hold there. On success nothing more than
 			// that is handed out from any NUMA node (and the amounts are exact, inside the hint); a request without cpu-bind (cpu and
 			// memory are then freely divisible) must succeed whenever the hinted nodes together have that much free for this pod.
+			// NodeResourceTopology refresh with a different reserved set (kubelet gives CPUs to static-policy pods, node reservation /
+			// system-QoS cpuset changes: NewTopologyOptions recomputes ReservedCPUs on every NRT update). CPUs that pods already
+			// hold may become reserved; from then on no reserved CPU may be handed out or reported available, whatever its refcount.
+			actions["reservedCPUsChanged"] = func(t *rapid.T) {
+				if dead {
+					return
+				}
+				ref := map[int]int{}
+				for _, a := range live {
+					for _, id := range a.CPUSet.ToSliceNoSort() {
+						ref[id]++
+					}
+				}
+				var held []int
+				for _, id := range all {
+					if ref[id] > 0 {
+						held = append(held, id)
+					}
+				}
+				pool := all
+				if len(held) > 0 && rapid.Bool().Draw(t, "amongHeld") {
+					pool = held
+				}
+				nr := cpuset.NewCPUSet(c06Subset(t, pool, "newReserved")...)
+				if nr.Size() == len(all) {
+					nr = cpuset.NewCPUSet()
+				}
+				reserved = nr
+				reservedChanged = true
+				reservedRefreshes++
+				for _, id := range nr.ToSliceNoSort() {
+					if ref[id] > 0 && ref[id] < maxRef {
+						heldBecameReserved++
+					}
+				}
+				reportTopology()
+				hist = append(hist, fmt.Sprintf("NodeResourceTopology refreshed, reserved CPUs now %s", nr))
+			}
 			actions["preemptionDryRun"] = func(t *rapid.T) {
 				if dead {
 					return
@@ -1289,6 +1343,8 @@ func c06ManagerHistoryProp(rec *vk.Rec, ext bool) func(*rapid.T) {
 			c.ClassIf(targetRuns > 0, "reusable-unaligned+numa-hint+required-fullpcpus+whole-core-request")
 			c.ClassIf(targetOK > 0, "reusable-unaligned+numa-hint+required-fullpcpus+whole-core-request:success")
 			c.ClassIf(targetRuns > targetOK, "reusable-unaligned+numa-hint+required-fullpcpus+whole-core-request:refused")
+			c.ClassIf(reservedRefreshes > 0, "reserved-cpus-changed-by-topology-refresh")
+			c.ClassIf(heldBecameReserved > 0, "held-cpu-below-sharing-limit-became-reserved")
 			c.ClassIf(preemptRuns > 0, "preempt-dry-run")
 			c.ClassIf(preemptOK > 0, "preempt-dry-run-success")
 			c.ClassIf(preemptRuns > preemptOK, "preempt-dry-run-refused")
@@ -1307,7 +1363,7 @@ func c06ManagerHistoryProp(rec *vk.Rec, ext bool) func(*rapid.T) {
 		}
 		// ext: a recorded pod was released while the node had no topology, or a required policy was evaluated with a NUMA hint
 		// over reusable CPUs that are not core-aligned, or a preemption dry run had a victim whose NUMA node list is not {0..k}
-		if ext && len(hist) >= 3 && (flapReleases > 0 || targetRuns > 0 || preemptOffZero > 0) {
+		if ext && len(hist) >= 3 && (flapReleases > 0 || targetRuns > 0 || preemptOffZero > 0 || heldBecameReserved > 0) {
 			c.NonTrivial(hist)
 		}
 		c.Sample(map[string]any{"topo": []int{tp.Sockets, tp.NodesPerSocket, tp.CoresPerNode, tp.Threads}, "maxRef": maxRef, "reserved": reserved.String(), "memPerNode": memPerNode, "history": hist})
